@@ -807,7 +807,8 @@ def run(ctx):
         gd = _desugar(g.node)
         loops = [n for n in ast.walk(gd) if isinstance(n, ast.For) and any(
             isinstance(c, ast.Compare) and isinstance(c.ops[0], ast.NotIn) for c in ast.walk(n))]
-        prob = scan_exhaustion_problem(g.node)
+        scans_ = []
+        prob = scan_exhaustion_problem(g.node, scans_)
         last_is_raise = bool(gd.body) and isinstance(gd.body[-1], ast.Raise) and isinstance(gd.body[-1].exc, ast.Call) and dotted(gd.body[-1].exc.func) == "Exception"
         # the scan may live in a helper that returns None when it is exhausted: `if (x := scan(...)) is None: raise Exception`
         via_helper = None
@@ -834,6 +835,11 @@ def run(ctx):
                                          % via_helper[0].qualname})
         elif via_helper is not None:
             ctx.violation("R16.6", key, "an internal error (bare Exception) is reachable: %s" % via_helper[1], file=g.file, line=bare[0].lineno)
+        elif not loops and scans_ and prob is None and all(
+                pth.end != "raise" or pth.end_node not in [b_ for b_ in ast.walk(gd) if isinstance(b_, ast.Raise)] or any(
+                    a_[0] == "none" and a_[2] is True for a_ in P_.facts(pth)) for pth in P_.enum_paths(gd.body)):
+            # the scan is a search expression (`next(<candidates not in P>, None)`); the exit is taken only when it found nothing
+            ctx.ok("R16.6", key, sample={"function": g.fq, "unreachable_because": "the search before it tries at least |population|+1 distinct candidates"})
         elif loops and last_is_raise and prob is None:
             ctx.ok("R16.6", key, sample={"function": g.fq, "unreachable_because": "the scan before it tries at least |population|+1 distinct candidates"})
         elif prob is not None:
